@@ -1,6 +1,7 @@
 package drivers
 
 import (
+	"os"
 	"context"
 	"flag"
 	"fmt"
@@ -56,7 +57,11 @@ func ClientClose(args []string) {
 				res.AddDrift(map[string]any{"why": "alice: " + err.Error()})
 				return
 			}
-			go alice.ReadLoop(ctx, func(protocol.Envelope) {})
+			// every other round the client's reader is not running yet when it sends and closes (what the server sent it -
+			// its peer list - is still unread then)
+			if round%2 == 0 && os.Getenv("VERIF_NO_READLOOP") == "" {
+				go alice.ReadLoop(ctx, func(protocol.Envelope) {})
+			}
 			// the server has entered alice into the session once bob is told
 			if !bob.waitFor(stuckBound, func(e protocol.Envelope) bool { return e.Type == protocol.TypePeerJoined }) {
 				res.AddDrift(map[string]any{"why": "bob was not told that alice joined"})
@@ -98,7 +103,8 @@ func ClientClose(args []string) {
 					break
 				}
 			}
-			replay := map[string]any{"envelopes_accepted_by_Send": accepted, "bytes_each": size, "received_by_the_recipient": len(ids), "in_order": inOrder}
+			replay := map[string]any{"envelopes_accepted_by_Send": accepted, "bytes_each": size, "received_by_the_recipient": len(ids), "in_order": inOrder,
+				"recipient_connection_closed": bob.isDead(), "server_log_tail": trunc(srv.out.String())}
 			switch {
 			case len(ids) < accepted:
 				outcomes["lost"]++
